@@ -546,9 +546,13 @@ impl MultiFileIterator {
             Box::new(BufReader::new(file))
         };
 
-        // Extract sample name from filename
+        // Extract sample name from filename. The compression suffix is not part of the name:
+        // NAME.gz must give the same sample name as NAME, whatever extension NAME has.
         let sample_name = file_path
-            .file_stem()
+            .file_name()
+            .and_then(|s| s.to_str())
+            .map(|s| s.strip_suffix(".gz").unwrap_or(s))
+            .and_then(|s| Path::new(s).file_stem())
             .and_then(|s| s.to_str())
             .map(|s| {
                 // Remove .fa or .fasta extensions if present
